@@ -215,6 +215,7 @@ Lemma stsc_facts tb : consistent tb = true ->
 Proof.
   intros H. destruct (consistent_parts tb H) as [Hn [_ [_ [Hs [_ [Ho _]]]]]].
   unfold stsc_ok in Hs.
+  apply andb_prop in Hs. destruct Hs as [Hs _]. apply andb_prop in Hs. destruct Hs as [Hs _].
   apply andb_prop in Hs. destruct Hs as [Hs Hids].
   apply andb_prop in Hs. destruct Hs as [Hs Hsum].
   apply andb_prop in Hs. destruct Hs as [Hs Hok].
